@@ -30,6 +30,15 @@ Proof.
   destruct (lookupN code sense_ascq_dict) as [t|]; [|discriminate]. apply String.eqb_eq in H. eauto.
 Qed.
 
+(* ... and that text is what the error prints for the code, whatever range its qualifier lies in (5Dh/FFh, 40h/00h) *)
+Theorem C08_described_by_t10_text : forall code text, In (code, text) t10_asc_subset ->
+  exists t, describe_ascq (code / 256) (code mod 256) = Ok t /\ upper t = upper text.
+Proof.
+  assert (H : described_ok = true) by (vm_compute; reflexivity).
+  intros code text Hin. unfold described_ok in H. rewrite forallb_forall in H. specialize (H _ Hin). cbn [fst snd] in H.
+  destruct (describe_ascq (code / 256) (code mod 256)) as [t|]; [|discriminate]. apply String.eqb_eq in H. eauto.
+Qed.
+
 (* non-vacuity: a one-byte deferred descriptor-format buffer, and a 2-byte fixed one *)
 Example C08_example_short : exists c d, sense_new [115] = Ok c /\ describe c = Ok d.
 Proof. apply C08_total. discriminate. Qed.
